@@ -4,6 +4,7 @@ import (
 	"bytes"
 	"errors"
 	"fmt"
+	"math/big"
 	"regexp"
 	"strconv"
 	"strings"
@@ -683,6 +684,14 @@ func parseNumberLiteral(literal string) (value interface{}, err error) { //nolin
 
 	parseIntErr := err // Save this first error, just in case
 
+	if errors.Is(err, strconv.ErrRange) && len(literal) > 1 && literal[0] == '0' && isDecimalDigit(rune(literal[1])) {
+		// A legacy octal literal too large for int64: not a decimal number.
+		if exact, ok := new(big.Int).SetString(literal[1:], 8); ok {
+			value, _ := new(big.Float).SetInt(exact).Float64()
+			return value, nil
+		}
+	}
+
 	value, err = strconv.ParseFloat(literal, 64)
 	if err == nil {
 		return value, nil
@@ -698,16 +707,10 @@ func parseNumberLiteral(literal string) (value interface{}, err error) { //nolin
 	if errors.Is(err, strconv.ErrRange) {
 		if len(literal) > 2 && literal[0] == '0' && (literal[1] == 'X' || literal[1] == 'x') {
 			// Could just be a very large number (e.g. 0x8000000000000000)
-			var value float64
-			literal = literal[2:]
-			for _, chr := range literal {
-				digit := digitValue(chr)
-				if digit >= 16 {
-					return nil, fmt.Errorf("illegal numeric literal: %v (>= 16)", digit)
-				}
-				value = value*16 + float64(digit)
+			if exact, ok := new(big.Int).SetString(literal[2:], 16); ok {
+				value, _ := new(big.Float).SetInt(exact).Float64() // nearest double of the exact value
+				return value, nil
 			}
-			return value, nil
 		}
 	}
 
